@@ -996,3 +996,4 @@ M('C11', 'clear-all-removal-of-nothing', STR, "        custom_diff = [op_remover
 T('C11', 'twin-clear-all-guarded-by-statement', STR, "        custom_diff = [op_removerange(0, len(base))] if base else []\n", "        custom_diff = []\n        if len(base) > 0:\n            custom_diff = [op_removerange(0, len(base))]\n")
 M('C11', 'combine-patches-keeps-insertions-apart', STR, "                a.valuelist = a.valuelist + d.valuelist\n", "                newdiffs.append(d)\n", 'R11.14')
 M('C17', 'two-words-file-then-ref-treated-as-ref-pair', ARGS, "        if is_gitref(base) and not is_gitref(remote):\n            paths = remote\n            remote = None\n", "        if not is_gitref(remote):\n            paths = remote\n            remote = None\n", 'R17.17')
+M('C12', 'key-filter-wrapped-around-key-filter', NBD, "            notebook_differs[path] = diff_ignore_keys(inner, keys)\n", "            notebook_differs[path] = diff_ignore_keys(notebook_differs[path], subkeys)\n", 'R12.14')
